@@ -309,7 +309,7 @@ impl Scenario for Segments {
                 if let Ok(b) = &blocked {
                     ctx.log(format!("blocked notices {:?}", b.try_iter().map(|n| format!("{:?}", n)).collect::<Vec<_>>()));
                 }
-                std::mem::forget(ch);
+                ctx.forget(ch);
                 let r = conn.close();
                 ctx.log(format!("close -> {}", res(&r)));
             }),
@@ -451,7 +451,7 @@ impl Scenario for ConsumerLife {
                     }
                 }
                 if how == "conn-drop" {
-                    std::mem::forget(ch);
+                    ctx.forget(ch);
                     drop(conn);
                     drain_consumer(&ctx, "consumer", &rx);
                     return;
@@ -1020,7 +1020,7 @@ fn flood_listeners(k: usize) -> Built {
             let rets: Vec<amiquip::Return> = returns.try_iter().collect();
             let in_order = rets.iter().enumerate().all(|(i, r)| r.routing_key == format!("k{}", i) && r.content == vec![i as u8]);
             ctx.log(format!("returns {} in order {}", rets.len(), in_order));
-            std::mem::forget(ch);
+            ctx.forget(ch);
             let r = conn.close();
             ctx.log(format!("close -> {}", res(&r)));
         }),
@@ -1108,7 +1108,7 @@ impl Scenario for Violations {
                     drain_consumer(&ctx, "consumer", &rx);
                 }
                 std::mem::forget(consumer);
-                std::mem::forget(ch);
+                ctx.forget(ch);
                 let r = conn.close();
                 ctx.log(format!("close -> {}", res(&r)));
             }),
